@@ -58,6 +58,12 @@ def run_types(tier, seed, shapes=None, per_shape=3):
     l1, m1 = cs.stage1(shapes, seed, per_shape=per_shape if tier == 'quick' else 5)
     r1 = vlib.run_model(runner, tl + l1)
     l2, m2 = cs.stage2(shapes, m1, r1, seed, tier)
+    # ---- stage 3: images that only a history reaches (an item shrunk in place leaves slack in front of the next slot,
+    #      pop / truncate leave a zero terminator behind the items): the states of the model along the histories of
+    #      gen/hist_cases.py, mapped as they are and with single bytes replaced
+    l3, m3 = history_images(shapes, runner, tl, seed, tier)
+    l2 = l2 + l3
+    m2.update(m3)
     layout = ['L %s.L %s' % (sid, sid) for sid, _ in shapes]
     meta = {}
     for sid, _ in shapes:
@@ -78,6 +84,57 @@ def run_types(tier, seed, shapes=None, per_shape=3):
     cross = coqcross.run({sid: shp.sexp(t) for sid, t in shapes}, allc, mres, 150 if tier == 'quick' else 600, seed)
     return {'shapes': shapes, 'cases': allc, 'mres': mres, 'rres': rres, 'meta': meta, 'cross': cross,
             'wall': time.time() - t0}
+
+
+def history_images(shapes, runner, tl, seed, tier):
+    import hist_cases
+    import random
+    rng = random.Random(seed * 50021 + 9)
+    hl, hm = hist_cases.generate(shapes, seed + 1000003, tier)
+    hl = [l for l in hl if len(l) < 4000]
+    hres = vlib.run_model(runner, tl + hl, shards=16)
+    lines, meta = [], {}
+    per_hist = 1 if tier == 'quick' else 2
+    for l in hl:
+        f = l.split(' ')
+        cid, sid, off = f[1], f[2], int(f[3])
+        m = hres.get(cid)
+        if m is None or off != 0:
+            continue
+        steps, _ = split_steps(m)
+        # (bytes the model leaves unspecified — padding — are given a value)
+        good = [st['buf'].replace('??', '5a') for st in steps[1:] if st.get('val') == 'ok' and st.get('buf')
+                and len(st['buf']) <= 400]
+        if not good:
+            continue
+        picks = [good[-1]] + rng.sample(good[:-1], min(per_hist - 1, len(good) - 1))
+        # histories that edit an item in place: every state behind the first edit, every position
+        edited = '(edit' in l
+        if edited:
+            first = min(i for i, o in enumerate(hm[cid]['ops']) if o.startswith('(edit'))
+            later = [st['buf'].replace('??', '5a') for st in steps[first + 1:] if st.get('val') == 'ok' and st.get('buf')
+                     and len(st['buf']) <= 400]
+            picks = list(dict.fromkeys(picks + later[:3 if tier == 'quick' else 8]))
+        for k, bh in enumerate(picks):
+            img = bytes.fromhex(bh)
+            base = '%s.I%d' % (cid, k)
+            lines.append('M %s %s 0 %s' % (base, sid, cs.hexs(img)))
+            meta[base] = {'op': 'M', 'shape': sid, 'off': 0, 'len': len(img), 'kind': 'histimage'}
+            pos = list(range(len(img)))
+            npos = (24 if edited else 10) if tier == 'quick' else 40
+            if len(pos) > npos:
+                pos = pos[:npos // 2] + rng.sample(pos[npos // 2:], npos // 2) if edited else rng.sample(pos, npos)
+            for p in sorted(pos):
+                vals = set(cs.MUT_VALUES) | {(img[p] + 1) & 255, (img[p] - 1) & 255}
+                vals.discard(img[p])
+                for v in rng.sample(sorted(vals), 2 if tier == 'quick' else 4):
+                    mut = bytearray(img)
+                    mut[p] = v
+                    c2 = '%s.B%d_%02x' % (base, p, v)
+                    lines.append('M %s %s 0 %s' % (c2, sid, cs.hexs(bytes(mut))))
+                    meta[c2] = {'op': 'M', 'shape': sid, 'off': 0, 'len': len(img), 'kind': 'histmutation', 'base': base,
+                                'pos': p, 'val': v}
+    return lines, meta
 
 
 def types_suite(tier, seed):
@@ -234,7 +291,7 @@ def run_miri(pid, tier, seed):
     cases = tc[:want[1]] + hc[:want[2]]
     vlib.build_harness(ts['shapes'])          # shapes_gen.rs of the quick tier (histories use the same shapes)
     hdir = os.path.join(vlib.VERIF, 'harness')
-    env = dict(vlib.ENV, MIRIFLAGS='-Zmiri-disable-isolation -Zmiri-ignore-leaks', VERIF_NO_RAW='1', RUSTUP_TOOLCHAIN='nightly')
+    env = dict(vlib.ENV, MIRIFLAGS='-Zmiri-disable-isolation -Zmiri-ignore-leaks', VERIF_NO_RAW='1', VERIF_CASE_TIMEOUT='0', RUSTUP_TOOLCHAIN='nightly')
     viol = []
     done = 0
     t0 = time.time()
